@@ -117,7 +117,11 @@ func devSuite(name string, secs int) {
 	}
 	w := 0
 	fmt.Sscan(os.Getenv("WORKERS"), &w)
-	res, err := explore.RunSuite(s, explore.Options{Deadline: time.Now().Add(time.Duration(secs) * time.Second), Workers: w})
+	var props []string
+	if ps := os.Getenv("VERIF_PROPS"); ps != "" {
+		props = strings.Split(ps, ",")
+	}
+	res, err := explore.RunSuite(s, explore.Options{Deadline: time.Now().Add(time.Duration(secs) * time.Second), Workers: w, Props: props})
 	if err != nil {
 		fmt.Println("INFRA:", err)
 		os.Exit(2)
@@ -149,9 +153,14 @@ func script(suite string, args []string) {
 	}
 	x, v := explore.NewExec(s)
 	defer x.Close()
+	cont := os.Getenv("VERIF_CONT") != ""
 	if v != nil {
-		fmt.Println("VIOLATION in seed:", v)
-		return
+		for _, w := range x.All {
+			fmt.Println("VIOLATION in seed:", w.Property, w.Signature, w.Detail)
+		}
+		if !cont {
+			return
+		}
 	}
 	x.C.B.Deviations = -1
 	for _, a := range strings.Split(strings.Join(args, " "), ";") {
@@ -177,8 +186,12 @@ func script(suite string, args []string) {
 		v, err := x.Apply(e)
 		fmt.Println("APPLIED", e, "err:", err)
 		if v != nil {
-			fmt.Println("VIOLATION", v.Property, v.Signature, v.Detail)
-			return
+			for _, w := range x.All {
+				fmt.Println("VIOLATION", w.Property, w.Signature, w.Detail)
+			}
+			if !cont {
+				return
+			}
 		}
 		if err != nil {
 			break
